@@ -3,12 +3,12 @@ From CV Require Import Base.Bytes Lib.Defs Lib.Proofs Lib.WalkProofs.
 Local Open Scope N_scope.
 
 Lemma reports_invalid_arg_iff ac e z :
-  ac_valid ac <> [] -> parse_valid (ac_valid ac) = Some e -> expr_ok e = true ->
-  (reports_invalid_arg ac z = Some true <-> ~ denote e z).
+  ac_valid ac <> [] -> parse_vexpr (ac_valid ac) = Some e -> vexpr_ok e = true ->
+  (reports_invalid_arg ac z = Some true <-> ~ denote_v e z).
 Proof.
   intros N0 P OK. unfold reports_invalid_arg. destruct (ac_valid ac) as [|c v] eqn:V; [congruence|].
-  rewrite (int_arg_valid_denote_b _ e z P OK). cbn [option_map]. rewrite <- denote_b_spec.
-  destruct (denote_b e z); cbn; split; congruence.
+  rewrite (int_arg_valid_denote_v_b _ e z P OK). cbn [option_map]. rewrite <- denote_v_b_spec.
+  destruct (denote_v_b e z); cbn; split; congruence.
 Qed.
 
 Lemma reports_null_bool cs ac isnull isbool :
